@@ -231,7 +231,7 @@ func runHarness(cfg *Config) *Result {
 		for k := range w.stubsUsed {
 			stb[k] = true
 		}
-		if len(res.Samples) < 6 {
+		if len(res.Samples) < 24 {
 			res.Samples = append(res.Samples, w.samples...)
 		}
 		w.solver.Close()
@@ -239,8 +239,8 @@ func runHarness(cfg *Config) *Result {
 			c.Close()
 		}
 	}
-	if len(res.Samples) > 6 {
-		res.Samples = res.Samples[:6]
+	if len(res.Samples) > 24 {
+		res.Samples = res.Samples[:24]
 	}
 	res.Functions = sortedKeys(funcs)
 	res.Intrinsics = sortedKeys(intr)
